@@ -1,5 +1,6 @@
 import Mdns.Spec.Trace
 import Mdns.Model.Sched
+import Mdns.Driver.SimResponder
 import Mdns.Driver.SimClient
 /-
   `sim` ops: correspondence of the scheduler model with real daemon histories on a silent
@@ -385,18 +386,23 @@ def exec (ts : List String) (impl : List String) : Option String :=
   | _prop :: rest =>
     let script := parseScript rest
     let obs := parseTrace impl
-    if script.any (fun c => match c with | .inject .. => true | _ => false) || !schedOnly script then
+    if script.any (fun c => match c with | .register .. => true | _ => false) then
+      -- registrations on one daemon: the responder model (outside its fragment: `nomodel`)
+      match SimResponder.responderCorrespondence script (iterations obs) with
+      | none => some "nomodel"
+      | some none => some (joinToks impl)
+      | some (some diff) => some diff
+    else if script.any (fun c => match c with | .inject .. => true | _ => false) || !schedOnly script then
       -- scripted responder (or commands beyond the scheduler fragment, e.g. metrics / verify):
       -- the client model (scheduler + cache + resolution)
       match SimClient.clientCorrespondence script (iterations obs) with
       | some none => some (joinToks impl)
       | some (some diff) => some diff
       | none => some "nomodel"
-    else if schedOnly script then
+    else
       match schedCorrespondence script (iterations obs) with
       | none => some (joinToks impl)
       | some diff => some diff
-    else some "nomodel"
   | [] => none
 
 def monitorOp (ts : List String) (impl : List String) : Option String :=
